@@ -627,6 +627,13 @@ fn run_quant(out: &mut Out, case: &QuantCase, kind: &str) {
                     let verdict = match missing {
                         // every colour is available (so every dithering error is zero): must be exact
                         None => Some("every distinct colour is in the palette"),
+                        // the property's own domain: fewer than 200 pixels per requested colour are never
+                        // subsampled (rule of the verified tree, `C13_lossless`); sampling MORE than that loses
+                        // colours the property promises to keep
+                        Some(_) if ((h * w) as u128) < 200 * (k as u128) => {
+                            Some("fewer than 200 pixels per requested colour: such an image is not to be subsampled")
+                        }
+                        // beyond it the implementation decides; ask it (so that sampling less does not alarm)
                         Some(c) => {
                             // is the image subsampled?  ask the implementation: a marker pixel at a position of
                             // the missing colour in an otherwise uniform image of the same size, same k
@@ -756,6 +763,37 @@ fn gen_quant(rng: &mut Rng, big: bool) -> (QuantCase, &'static str) {
         _ => ((d + rng.range(0, 20)) as usize, "k>=distinct"),
     };
     (QuantCase { height: hh, width: ww, data, crop, k, dither: rng.chance(1, 2), bg }, kind)
+}
+
+/// An image in (or at the edge of) the band `100·ps .. 200·ps` pixels with at most `ps` distinct colours of
+/// which all but one occur exactly once, at scattered positions: it must be reproduced exactly, and a
+/// sampling rule that skips pixels there loses the rare colours.
+fn gen_band(rng: &mut Rng, ps: usize, area: Option<usize>) -> QuantCase {
+    let (lo, hi) = (100 * ps + 1, 200 * ps - 1);
+    let (hh, ww) = match area {
+        Some(a) => (1, a),
+        None => loop {
+            let (hh, ww) = if rng.chance(1, 4) {
+                (1usize, rng.range(lo as i64, hi as i64) as usize)
+            } else {
+                (rng.range(2, 64) as usize, rng.range(2, 64) as usize)
+            };
+            if hh * ww >= lo && hh * ww <= hi {
+                break (hh, ww);
+            }
+        },
+    };
+    let style = rng.below(2);
+    let mut cols = gen_colors(rng, ps, style);
+    cols.sort_by_key(|c| c.to_rgba());
+    cols.dedup();
+    let bulk = cols[0];
+    let mut data = vec![bulk; hh * ww];
+    for c in cols.iter().skip(1) {
+        let j = rng.below((hh * ww) as u64) as usize;
+        data[j] = *c;
+    }
+    QuantCase { height: hh, width: ww, data, crop: None, k: ps, dither: rng.chance(1, 2), bg: None }
 }
 
 fn opaque(cs: &[Rgb]) -> Vec<RGBA> {
@@ -953,6 +991,20 @@ fn main() {
             }
         }
         run_oct(&mut out, &cols, &ops.join(","), style_name(style));
+    }
+
+    // ---- the subsampling boundary: areas 100·ps, 100·ps+1, 200·ps−1 (never subsampled), 200·ps, 200·ps+1
+    //      (subsampled: model and code must pick the same pixels), then random images inside the band
+    for ps in [1usize, 2, 3, 5, 8, 13, 20] {
+        for area in [100 * ps, 100 * ps + 1, 150 * ps, 200 * ps - 1, 200 * ps, 200 * ps + 1] {
+            let case = gen_band(&mut rng, ps, Some(area));
+            run_quant(&mut out, &case, "band-edge");
+        }
+    }
+    for _ in 0..14 * scale {
+        let ps = *rng.pick(&[2usize, 3, 4, 6, 8, 8, 11, 16, 20]);
+        let case = gen_band(&mut rng, ps, None);
+        run_quant(&mut out, &case, "band");
     }
 
     // ---- quantize
